@@ -155,6 +155,8 @@ def texts_for(bg, tier, phase):
 # Pairs that reach branches of the mode logic the derived lattice rarely hits; found by the thorough tier's own exploration
 # (not by reading the code) and pinned here so that the quick tier exercises them on every run:
 #  - relaxed mode: recursive pass fails, extended recursion (option A) fails, single relaxed shot (option B) succeeds
+# (they did so on the tree with fix f8a9820; since its refinement c4d12dd they fail in relaxed mode, as on the original tree - kept as
+#  ordinary lattice members)
 BRANCH_WITNESS = [((177, 235, 241), (141, 109, 0)), ((177, 235, 240), (141, 109, 0))]
 #  - text all but on a mid-tone background, on the side of it the usual direction rule walks away from: moving away reaches
 #    the ordinary large-text minimum only at the very end of the line, crossing the background reaches it sooner (found by
